@@ -100,7 +100,7 @@ def gen_vm_program(rnd, size):
             elif k < 0.92 and not in_func and depth == 0 and len(files) < 4:
                 name = 'inc%d.bare' % len(files)
                 files[name] = None      # reserve the name (acyclic: a file only includes files created after it)
-                files[name] = {'statements': block(rnd.choice([0, 1, 2, 3, 4, 5]), 1, False) + ([{'return': {}}, c08.log_stmt(tag('dead'))] if rnd.random() < 0.2 else [])}
+                files[name] = {'statements': block(rnd.choice([0, 1, 2, 3, 4, 5]), 1, False) + ([rnd.choice([{'return': {}}, {'return': {'expr': {'number': 1.0}}}, {'return': {'expr': V('n')}}]), c08.log_stmt(tag('dead'))] if rnd.random() < 0.3 else [])}
                 incs = [{'url': name}] * rnd.choice([1, 1, 2, 3])
                 for inc in incs:
                     out.append({'include': {'includes': [inc]}})
@@ -258,6 +258,7 @@ INC_FILES = {
     'inc2.bare': "include 'inc1.bare'\nsystemLog('i2')\ninclude 'inc1.bare'\n",
     'empty.bare': "",
     'comment.bare': "# nothing but a comment\n\n",
+    'inc4.bare': "systemLog('i4 a')\nsystemLog('i4 b')\nif true:\n    return 'value'\nendif\nsystemLog('never')\n",
     'inc3.bare': "function fromInc(aa):\n    systemLog('fromInc ' + aa)\n    return aa\nendfunction\nfromInc(1)\nfromInc(2)\nsystemLog('i3')\nreturn\nsystemLog('never')\n",
 }
 CALLBACK_PRELUDE = ["function chk(aa):", "    systemLog('chk a')", "    systemLog('chk b')", "    return aa > 1", "endfunction",
